@@ -41,7 +41,7 @@ Init ==
   \/ \E ty \in {"Origin", "AppliedUpstream"} : \E kind \in 1..2, u \in 1..4 : case = V(ty, <<kind, u>>)
   \/ \E u \in 1..5, b \in Opt(1..2), sp \in Opt(1..2) : case = V("ParsedVcs", <<u, b, sp>>)
   \/ \E name \in 1..5, u \in 1..5, b \in Opt(1..2), sp \in Opt(1..2) : case = V("Vcs", <<name, u, b, sp>>)
-  \/ \E kind \in 1..3, n \in 1..2, t \in 1..3 : case = V("License", <<kind, n, t>>)
+  \/ \E kind \in 1..3, n \in 1..2, t \in 1..4 : case = V("License", <<kind, n, t>>)
   \/ \E kind \in 1..2, t \in 1..3 : case = V("Signature", <<kind, t>>)
   \* DEP-3 Origin field: optional category prefix "<category>, " in front of the origin (through the patch header readers)
   \/ \E cat \in 0..4, kind \in 1..2, u \in 1..4 : case = V("Dep3OriginField", <<cat, kind, u>>)
